@@ -717,4 +717,104 @@ example : D.inProg Lemmas.SchedD.cfgF4 D.wD (.retrEnd D.wJob (some 1)) ∧
     (D.Sec.retrEnd D.wJob (some 1)).thread ≠ (D.Sec.scanEnd 2 1).thread := by
   refine ⟨?_, ?_, by decide⟩ <;> (simp only [D.inProg]; decide)
 
+/-- the lock that guards a shared scheduler variable of the decompressor
+    (`source_mutex` for `in_slots` / `request_close`, `sink_mutex` for
+    `output_q`, `sched_mutex` for the rest) -/
+def expandGuard : D.DVar → Lock
+  | .inSlots | .requestClose => .source
+  | .outputQ | .finish => .sink
+  | _ => .sched
+
+/-- the shared variables whose model field differs between `s` and `s'` -/
+def expandChanged (s s' : Model.SchedD.State) : List D.DVar :=
+  (if s'.eof ≠ s.eof then [D.DVar.eof] else []) ++
+  (if s'.rclose ≠ s.rclose then [.requestClose] else []) ++
+  (if s'.inSlots ≠ s.inSlots then [.inSlots] else []) ++
+  (if s'.scanQ ≠ s.scanQ then [.scanQ] else []) ++
+  (if s'.retrQ ≠ s.retrQ then [.retrQ] else []) ++
+  (if s'.emitQ ≠ s.emitQ then [.emitQ] else []) ++
+  (if s'.reordQ ≠ s.reordQ then [.reordQ] else []) ++
+  (if s'.orderQ ≠ s.orderQ then [.orderQ] else []) ++
+  (if s'.orphans ≠ s.orphans then [.unordQ] else []) ++
+  (if s'.ptok ≠ s.ptok then [.parseToken] else []) ++
+  (if s'.pdone ≠ s.pdone then [.parsingDone] else []) ++
+  (if s'.ppos ≠ s.ppos then [.parserBs] else []) ++
+  (if s'.rd ≠ s.rd then [.tailOffs] else []) ++
+  (if s'.head ≠ s.head then [.headOffs] else []) ++
+  (if s'.wu ≠ s.wu then [.workUnits] else []) ++
+  (if s'.outSlots ≠ s.outSlots then [.outSlots] else []) ++
+  (if s'.outq ≠ s.outq then [.outputQ] else [])
+
+theorem writesVar_exists {l : List D.Acc} {v : D.DVar} (h : D.writesVar l v = true) :
+    ∃ a ∈ l, a.write = true ∧ a.var = v := by
+  simp only [D.writesVar, List.any_eq_true, Bool.and_eq_true, decide_eq_true_eq] at h
+  exact h
+
+/-- **expand_changes_under_lock** (end to end: model → annotation → lock):
+    in every reachable state, every shared variable that a transition of
+    `Model.SchedD.step` changes is written, in the footprint of the section
+    the transition belongs to, by an access that holds the variable's guarding
+    lock (and `tail_offs` only by the reader). -/
+theorem expand_changes_under_lock {c : Model.SchedD.Cfg} (hW : 0 < c.W)
+    {s s' : Model.SchedD.State} {l : Model.SchedD.Label} (h : Model.SchedD.Reach c s)
+    (hs : Model.SchedD.step c s l = some s') :
+    ∀ v ∈ expandChanged s s', ∃ a ∈ D.fp c s (expandSecOf s l),
+      a.write = true ∧ a.var = v ∧ expandGuard v ∈ a.locks ∧
+      (v = .tailOffs → a.thread = .reader) := by
+  obtain ⟨hp, hc⟩ := expand_step_annotated hs
+  have key : ∀ v, D.writesVar (D.fp c s (expandSecOf s l)) v = true →
+      v ∈ [D.DVar.eof, .requestClose, .inSlots, .scanQ, .retrQ, .emitQ, .reordQ, .orderQ, .unordQ,
+        .parseToken, .parsingDone, .parserBs, .tailOffs, .headOffs, .workUnits, .outSlots,
+        .outputQ] →
+      ∃ a ∈ D.fp c s (expandSecOf s l),
+        a.write = true ∧ a.var = v ∧ expandGuard v ∈ a.locks ∧
+        (v = .tailOffs → a.thread = .reader) := by
+    intro v hv hmem
+    obtain ⟨a, ha, hw, hav⟩ := writesVar_exists hv
+    obtain ⟨g1, _, g3, g4, g5⟩ := expand_guarded_under_lock hW h hp ha
+    refine ⟨a, ha, hw, hav, ?_, ?_⟩
+    · simp only [List.mem_cons, List.not_mem_nil, or_false] at hmem
+      rcases hmem with rfl | rfl | rfl | rfl | rfl | rfl | rfl | rfl | rfl | rfl | rfl | rfl | rfl |
+        rfl | rfl | rfl | rfl
+      all_goals first
+        | exact g1 (by rw [hav]; decide)
+        | exact g3 (by rw [hav]; decide)
+        | exact g4 (by rw [hav]; decide)
+        | exact ((g5 hav).1 hw).2
+    · intro ht; subst ht; exact ((g5 hav).1 hw).1
+  intro v hv
+  simp only [expandChanged, List.mem_append] at hv
+  rcases hv with ((((((((((((((((hv | hv) | hv) | hv) | hv) | hv) | hv) | hv) | hv) | hv) | hv) |
+    hv) | hv) | hv) | hv) | hv) | hv)
+  all_goals
+    split at hv
+    · next hne =>
+      rw [List.mem_singleton] at hv; subst hv
+      first
+        | exact key _ (hc.eof hne) (by decide)
+        | exact key _ (hc.rclose hne) (by decide)
+        | exact key _ (hc.inSlots hne) (by decide)
+        | exact key _ (hc.scanQ hne) (by decide)
+        | exact key _ (hc.retrQ hne) (by decide)
+        | exact key _ (hc.emitQ hne) (by decide)
+        | exact key _ (hc.reordQ hne) (by decide)
+        | exact key _ (hc.orderQ hne) (by decide)
+        | exact key _ (hc.orphans hne) (by decide)
+        | exact key _ (hc.ptok hne) (by decide)
+        | exact key _ (hc.pdone hne) (by decide)
+        | exact key _ (hc.ppos hne) (by decide)
+        | exact key _ (hc.rd hne) (by decide)
+        | exact key _ (hc.head hne) (by decide)
+        | exact key _ (hc.wu hne) (by decide)
+        | exact key _ (hc.outSlots hne) (by decide)
+        | exact key _ (hc.outq hne) (by decide)
+    · exact absurd hv List.not_mem_nil
+
+/-- non-vacuous: on the reachable witness state the transition `scanEnd 2 1`
+    changes `scan_q` and `retr_q` -/
+example : Model.SchedD.Reach Lemmas.SchedD.cfgF4 D.wD ∧
+    (Model.SchedD.step Lemmas.SchedD.cfgF4 D.wD (.scanEnd 2 1)).map (expandChanged D.wD) =
+      some [.scanQ, .retrQ] :=
+  ⟨D.wD_reach, by decide +kernel⟩
+
 end LbzVerif.Props.C12
